@@ -236,6 +236,13 @@ class Root(Controller):
             return self.notfound()
         if k == 'none':
             return None
+        if k in ('raisehttp', 'raise'):
+            # what the handler had prepared before it failed: nothing / a Content-Length of its own / a file response
+            prep = (a // 7) % 3
+            if prep == 1:
+                res.headers['Content-Length'] = '100000'
+            elif prep == 2:
+                self.serve_file(file_path(FILE_SIZES[4]))
         if k == 'raisehttp':
             raise HTTPEXC[a % len(HTTPEXC)]()
         if k == 'raise':
@@ -439,7 +446,8 @@ class C15(Prop):
             'ownresp': [{'a': 0}, {'a': 1}, {'a': 2, 'items': [0, 1, 2]}, {'a': 2, 'items': []}],
             'status': [{'a': i} for i in range(len(STATUSES))],
             'nobody': [{'a': i} for i in range(2 * len(NOBODY))],
-            'raisehttp': [{'a': 0}, {'a': 1}],
+            'raisehttp': [{'a': 0}, {'a': 1}, {'a': 7}, {'a': 14}, {'a': 9}, {'a': 16}],
+            'raise': [{'a': 0}, {'a': 7}, {'a': 14}],
             'filterraise': [{'a': 0}, {'a': 1}],
             'redirect': [{'a': i} for i in range(len(REDIR_CODES))],
         }
